@@ -19,10 +19,10 @@ from bec2format.bec2file import (Bec2File, InitCustKeyAuthBlock, InitEccAuthBloc
 
 LEVEL = "model_checking"
 RULE = ("E2: breadth-first search over operation histories of real Bec2File objects (two slots): New (no key, drawn from the randomness seam), "
-        "NewKey(K ending in 00 / K2), Switch, Add(customer-key | ECC sel 0 | ECC sel 2 | update), Write, Read(D) for every decryptor subset D, "
-        "with canonical-state deduplication (per slot: key origin, ordered block descriptors incl. typed/unknown, text in sync). On every Write "
+        "NewKey(K ending in 00 / K2), Rekey (content moved into a new Bec2File under another key), Switch, Add(customer-key | ECC sel 0 | ECC sel 2 | update), Write, Read(D) for every decryptor subset D, "
+        "with canonical-state deduplication (per slot: key origin, ordered block descriptors incl. typed/unknown, text in sync, blocks to be kept, provenance of the component objects: caller-built or reader-built). On every Write "
         "each block is unwrapped independently (reference AES container / reference ECIES with the recipient's private scalar) and must give "
-        "one key == object key == key that verifies the directory MACs; unopened blocks must be byte-identical to what was read; every New "
+        "one key == object key == key that verifies the directory MACs and decrypts the encrypted configuration component; unopened blocks must be byte-identical to what was read; every New "
         "consumes exactly one 16-byte draw which becomes the key; every packed ECC block consumes fresh entropy and its ephemeral point is new "
         "in the history. E1 ('splice', ...): every ordered pair of block kinds x key pairs K1 != K2 (4 key classes, plus keys differing in each single bit) spliced into one header (body MACed with "
         "either): rejected with both decryptors, accepted with one decryptor iff the body matches that block's key.")
@@ -74,10 +74,11 @@ class St:
         self.points = []              # ephemeral points of all packed ECC blocks in this history
         self.encs = encryptors()      # the caller's encryptor objects live as long as the history (as in the appnotes)
         self.kept = [set(), set()]    # per slot: tags of blocks the last Read had no decryptor for (must be kept byte-for-byte)
+        self.prov = ["fresh", "fresh"]  # per slot: were the component objects built by the caller or by the reader?
 
 
 KINDS = {1: "cust", 3: "ecc", 2: "upd"}
-OPS = ([("new",), ("newkey", 1), ("newkey", 2), ("switch",), ("add", "cust"), ("add", "ecc", 0), ("add", "ecc", 2), ("add", "upd"),
+OPS = ([("new",), ("newkey", 1), ("newkey", 2), ("rekey", 1), ("rekey", 2), ("switch",), ("add", "cust"), ("add", "ecc", 0), ("add", "ecc", 2), ("add", "upd"),
         ("write",)] + [("read",) + c for n in (1, 2, 3) for c in combinations(("cust", "ecc", "upd"), n)]
        # decryptor sets in which the ECC block is only matched by an encrypt-only (public key) EccEncryptor
        + [("read", "cust", "eccpub"), ("read", "upd", "eccpub"), ("read", "cust", "upd", "eccpub")])
@@ -91,12 +92,26 @@ def canon(st):
             out.append(None)
             continue
         blocks = tuple((b.tag, type(b).__name__, getattr(b, "key_selector", None)) for b in o.auth_blocks.values())
-        out.append((st.origin[i], blocks, st.texts[i] is not None, tuple(sorted(st.kept[i]))))
+        out.append((st.origin[i], blocks, st.texts[i] is not None, tuple(sorted(st.kept[i])), st.prov[i]))
     return tuple(out)
 
 
+CFG = {(0x1111, 0x22): b"\x33\x33\x33", (0x0620, 0x07): b"\x09", (0x0620, 0x06): b"Testname"}
+_CFGBLOB = []
+
+
+def cfg_blob():
+    if not _CFGBLOB:
+        f = Bf3File({}, [])
+        f.set_config(dict(CFG))
+        _CFGBLOB.append(bytes(f.components[-1].blob))
+    return _CFGBLOB[0]
+
+
 def fresh_bf3():
-    return Bf3File({"Note": "c07"}, [Bf3Component({0xC1: b"\x00"}, b"firmware-bytes-0123456789")])
+    f = Bf3File({"Note": "c07"}, [Bf3Component({0xC1: b"\x00"}, b"firmware-bytes-0123456789")])
+    f.set_config(dict(CFG))        # an encrypted component: its ciphertext must always be under the file's current session key
+    return f
 
 
 def step(st, op):
@@ -133,6 +148,19 @@ def step(st, op):
         st.keys.append(b.session_key)
         st.objs[slot], st.texts[slot], st.raws[slot], st.cur = b, None, None, slot
         st.kept[slot] = set()
+        st.prov[slot] = "fresh"
+        return st, o
+    if kind == "rekey":
+        # the content (possibly obtained by reading a file) is put into a new Bec2File under another session key
+        if obj is None or st.kept[i]:
+            return None
+        newkey = [None, K1, K2][op[1]]
+        if obj.session_key == newkey:
+            return None
+        st.objs[i] = Bec2File(obj.bf3file, list(obj.auth_blocks.values()), session_key=newkey)
+        st.origin[i] = "K%d" % op[1]
+        st.texts[i] = None
+        st.raws[i] = None
         return st, o
     if kind == "switch":
         if st.objs[1 - i] is None:
@@ -190,6 +218,7 @@ def step(st, op):
                 g != e for g, e in zip(got_types, exp_types) if e[1] != "UnknownAuthBlock"):
             o.viol("read|blocks", "blocks read as %r, expected %r" % (got_types, exp_types))
         st.objs[i] = r
+        st.prov[i] = "read"
         st.kept[i] = {t for t in obj.auth_blocks if KINDS[t] not in D}
         return st, o
     raise ValueError(op)
@@ -243,7 +272,12 @@ def check_written(st, i, obj, binary, rnd, o):
     elif distinct and distinct != {obj.session_key}:
         o.viol("wrap|not-object-key", "blocks wrap %s but the object's session key is %s" % (distinct.pop().hex(), obj.session_key.hex()))
     try:
-        L.validate(binary, hlen, obj.session_key)
+        comps = L.validate(binary, hlen, obj.session_key)
+        for c in comps:
+            if dict(c["tags"]).get(0xC2) == b"\x02":
+                blob = cfg_blob()
+                if len(c["stored"]) % 16 or A.cbc_decrypt(obj.session_key, c["stored"])[:len(blob)] != blob:
+                    o.viol("wrap|component-not-under-file-key", "the encrypted component of the written file does not decrypt under the file's session key")
     except L.Reject as r:
         o.viol("wrap|directory-mac", "directory does not verify under the object's session key: %s" % r)
     st.raws[i] = blocks
